@@ -99,9 +99,33 @@ def f64bits(n):
     return format(struct.unpack("<Q", struct.pack("<d", f))[0], "016x")
 
 
+def f32bits(n):
+    """correctly rounded (nearest, ties to even) f32 of an integer, as bits"""
+    neg, m = n < 0, abs(n)
+    if m == 0:
+        f = 0.0
+    else:
+        bl = m.bit_length()
+        if bl <= 24:
+            f = float(m)
+        else:
+            sh = bl - 24
+            q, rem, half = m >> sh, m & ((1 << sh) - 1), 1 << (sh - 1)
+            if rem > half or (rem == half and (q & 1)):
+                q += 1
+            f = math.inf if bl > 200 else math.ldexp(q, sh)
+            if f > 3.4028234663852886e38:
+                f = math.inf
+    if neg:
+        f = -f
+    return format(struct.unpack("<I", struct.pack("<f", f))[0], "08x")
+
+
 def iroot(x, n):
     if x < 2:
         return x
+    if n >= x.bit_length():
+        return 1
     lo, hi = 0, 1 << (x.bit_length() // n + 1)
     while lo < hi:
         m = (lo + hi + 1) // 2
@@ -309,8 +333,67 @@ def expected(case):
             return "Some(%d)" % I(0) if -128 <= I(0) < 128 else "None"
         if op in ("uto_f64", "ito_f64"):
             return f64bits(I(0))
+        if op == "uto_f32":
+            return f32bits(I(0))
         if op in ("ufrom_u64", "ufrom_u128", "ifrom_i64", "ifrom_i128"):
             return hx(I(0))
+        if op == "imut":
+            x = I(0)
+            k = 1
+            while k + 1 < len(a):
+                y = I(k + 1)
+                o = a[k]
+                if o == "add":
+                    x += y
+                elif o == "sub":
+                    x -= y
+                elif o == "mul":
+                    x *= y
+                elif o in ("div", "rem"):
+                    if y == 0:
+                        return "PANIC"
+                    q, m = tdiv(x, y)
+                    x = q if o == "div" else m
+                elif o == "and":
+                    x &= y
+                elif o == "or":
+                    x |= y
+                elif o == "xor":
+                    x ^= y
+                elif o == "shl":
+                    x <<= y
+                elif o == "shr":
+                    x >>= y
+                elif o == "setbit":
+                    x |= (1 << y)
+                elif o == "clrbit":
+                    x &= ~(1 << y)
+                elif o == "zero":
+                    x = 0
+                elif o == "one":
+                    x = 1
+                elif o == "clone_from":
+                    x = y
+                elif o == "neg":
+                    x = -x
+                else:
+                    return None
+                k += 2
+            return "%s true Equal true" % hx(x)
+        if op in ("uparse_bytes", "iparse_bytes", "uparse", "iparse"):
+            if op.endswith("bytes"):
+                try:
+                    t = bytes(int(x, 16) for x in a[1:]).decode("utf-8")
+                except UnicodeDecodeError:
+                    return "None" if 2 <= I(0) <= 36 else "None"
+                r0 = I(0)
+                if not 2 <= r0 <= 36:
+                    return "PANIC"
+                e2 = expected(("ufrom_str" if op[0] == "u" else "ifrom_str", '"%s"' % t, hx(r0))) if '"' not in t and " " not in t else None
+                if e2 is None:
+                    return None
+                return "None" if e2 == "Err" else "Some(%s)" % e2[3:-1]
+            return expected(("ufrom_str" if op[0] == "u" else "ifrom_str", a[0], hx(10)))
         if op in ("ufrom_str", "ifrom_str"):
             # the grammar of the property statement: one optional sign ('+' only for BigUint), digits below the radix in
             # either letter case, '_' anywhere after the first digit, leading zeros allowed
@@ -759,6 +842,16 @@ def bank(pid, tier, seed):
         for a, _ in pairs(20):
             for s in EDGE:
                 cases.append(("umul_u64", hx(a), hx(s)))
+        # sparse operands, zero digits inside and at both ends of the operands, squares, at every regime
+        for la in (1, 2, 31, 32, 33, 34, 63, 64, 65, 66, 96, 99, 255, 256, 257, 258, 259, 384, 513):
+            sparse = (1 << (64 * (la - 1))) + 1
+            holes = big(rng, la, "rand") & ~(((1 << (64 * (la // 3 + 1))) - 1) << (64 * (la // 3))) | (1 << (64 * la - 1))
+            tz = big(rng, max(la - la // 2, 1), "ones") << (64 * (la // 2))
+            for x in (sparse, holes, tz):
+                cases.append(("umul", hx(x), hx(x)))
+                cases.append(("umul", hx(x), hx(big(rng, la, "ones"))))
+                cases.append(("umul", hx(x), hx(big(rng, 2 * la + 1, "rand"))))
+                cases.append(("umul", hx(big(rng, max(la // 2, 1), "edge")), hx(x)))
         for a, b in signed(list(pairs(5))[::4]):
             cases.append(("ichecked_mul", hx(a), hx(b)))
             cases.append(("ichecked_mul_t", hx(a), hx(b)))
@@ -782,6 +875,31 @@ def bank(pid, tier, seed):
             for op in ("idivrem", "idiv", "irem", "idiv_floor", "imod_floor", "idiv_mod_floor", "idiv_ceil", "idiv_euclid", "irem_euclid",
                        "idiv_rem_euclid", "ichecked_div", "ichecked_div_euclid", "ichecked_rem_euclid", "ichecked_div_rem_euclid"):
                 cases.append((op, hx(a), hx(b)))
+        # Knuth D corner patterns: trial digit too large by 1 or 2, top remainder digit equal to the divisor's top digit, add-back;
+        # every normalisation shift of the divisor's top digit
+        M = B64 - 1
+        pats = []
+        for top in (1 << 63, (1 << 63) + 1, M, M - 1, 1, 3, 0x8000000000000001, 0x7fffffffffffffff):
+            for second in (0, 1, M, 1 << 63):
+                for third in (0, M):
+                    pats.append(top << 128 | second << 64 | third)
+                    pats.append(top << 64 | second)
+        for v in pats:
+            for sh in (0, 1, 2, 31, 32, 33, 61, 62, 63):
+                vv = v >> sh
+                if vv == 0:
+                    continue
+                for q in (M, M - 1, B64, (M << 64) | M, (1 << 63), (1 << 127) + 1, ((1 << 63) << 64) | M):
+                    for r in (0, 1, vv - 1, vv // 2):
+                        if r < vv:
+                            cases.append(("udivrem", hx(q * vv + r), hx(vv)))
+                # dividend whose leading digits repeat the divisor's leading digits
+                cases.append(("udivrem", hx((vv << 64) | (vv - 1 if vv > 1 else 0)), hx(vv)))
+                cases.append(("udivrem", hx((vv << 128) - 1), hx(vv)))
+                cases.append(("udivrem", hx(((vv << 64) - 1) << 64), hx(vv)))
+        # the classical add-back example scaled to 64-bit digits
+        cases.append(("udivrem", hx((0x7fffffffffffffff << 192) | (1 << 191)), hx((1 << 191) | 1)))
+        cases.append(("udivrem", hx((0x7fffffffffffffff << 192) | (1 << 191) | (M << 64)), hx((1 << 191) | 1)))
         for a, _ in pairs(8):
             for s in EDGE:
                 for op in ("udiv_u64", "urem_u64", "u64_div_u", "u64_rem_u"):
@@ -829,6 +947,20 @@ def bank(pid, tier, seed):
             cases.append(("uhash_eq", hx(abs(a)), hx(abs(b))))
         cases.append(("udefault",))
         cases.append(("idefault",))
+        OPS = ["add", "sub", "mul", "div", "rem", "and", "or", "xor", "shl", "shr", "setbit", "clrbit", "zero", "one", "clone_from", "neg"]
+        for _ in range(400 if tier == "quick" else 3000):
+            x = rng.choice([1, -1]) * big(rng, rng.randrange(0, 6))
+            seq = []
+            for _ in range(rng.randrange(2, 9)):
+                o = rng.choice(OPS)
+                if o in ("shl", "shr", "setbit", "clrbit"):
+                    y = rng.choice([0, 1, 63, 64, 65, 127, 128, 191, 192, 200, 300])
+                elif o in ("div", "rem"):
+                    y = rng.choice([1, -1]) * (big(rng, rng.randrange(1, 4)) or 1)
+                else:
+                    y = rng.choice([1, -1]) * big(rng, rng.randrange(0, 5), rng.choice([None, "ones", "zero", "edge"]))
+                seq += [o, hx(y)]
+            cases.append(("imut", hx(x)) + tuple(seq))
     elif pid == "C05":
         for a, b in pairs(5):
             for m in (1, 2, 3, 4, 97, B64 - 1, B64, B64 + 1, big(rng, 2), big(rng, 3) | 1, big(rng, 3) & ~1 or 2):
@@ -839,6 +971,22 @@ def bank(pid, tier, seed):
                     for sm in (1, -1):
                         cases.append(("imodpow", hx(sa * a), hx(e), hx(sm * m)))
                         cases.append(("imodinv", hx(sa * a), hx(sm * m)))
+        # exponents with zero 4-bit windows, zero low digits, powers of two; moduli with all-ones / minimal top digits (0, 1 or 2
+        # final subtractions of the almost-Montgomery result), even moduli with whole zero digits, |m| = 1
+        exps = [1 << 64, 1 << 128, (1 << 130) + (1 << 4), 0xf0f0f0f0f0f0f0f0f0f0, (0xf << 124) | 0xf, (1 << 200) - 1, 0x1000000000000000100000000000000, 16, 15, 17, 255, 256]
+        mods = [M64 for M64 in (B64 - 1, (1 << 128) - 1, (1 << 192) - 1, (1 << 64) + 1, (1 << 128) + 1, (1 << 127) + 1, (1 << 63) | 1, 3 << 126 | 1,
+                                (B64 - 1) << 64 | 1, 1 << 64, 1 << 128, (1 << 128) + (1 << 64), 6 << 64, 1, 2, 4)]
+        bases = [0, 1, 2, B64 - 1, B64, (1 << 128) - 1, (1 << 192) + 5, big(rng, 3), big(rng, 1)]
+        for m in mods:
+            for bb in bases:
+                for e in exps[:6] if tier == "quick" else exps:
+                    cases.append(("umodpow", hx(bb), hx(e), hx(m)))
+                for e in (0, 1, 16, 255):
+                    for sa in (1, -1):
+                        for sm in (1, -1):
+                            cases.append(("imodpow", hx(sa * bb), hx(e), hx(sm * m)))
+                cases.append(("umodinv", hx(bb), hx(m)))
+                cases.append(("imodinv", hx(-bb), hx(-m)))
     elif pid == "C06":
         for a, _ in pairs(8):
             for r in (2, 3, 7, 8, 10, 16, 32, 36):
@@ -876,6 +1024,38 @@ def bank(pid, tier, seed):
                         cases.append(("ifrom_str", '"-%s"' % d, hx(r)))
             cases.append(("ufrom_str", '"1"', hx(1)))
             cases.append(("ifrom_str", '"1"', hx(37)))
+        # values around the 64-digit threshold of the chunked export and long inputs of the chunked import; every radix
+        for nd in (62, 63, 64, 65, 66, 129, 130):
+            for pat in ("rand", "ones", None):
+                v = big(rng, nd, pat)
+                for r in (3, 7, 10, 36, 2, 16):
+                    cases.append(("uto_str", hx(v), hx(r)))
+                    cases.append(("ufrom_str", '"%s"' % text(v, r), hx(r)))
+                for r in (3, 10, 100, 255, 256, 128, 8):
+                    cases.append(("uto_radix_le", hx(v), hx(r)))
+                    cases.append(("uto_radix_be", hx(v), hx(r)))
+            v = 10 ** (19 * nd)  # long runs of zero output digits
+            cases.append(("uto_str", hx(v), hx(10)))
+            cases.append(("uto_str", hx(v - 1), hx(10)))
+            cases.append(("ufrom_str", '"%s"' % str(v), hx(10)))
+        for v in (0, 1, 35, 36, B64 - 1, B64, big(rng, 2), big(rng, 5)):
+            for r in range(2, 37):
+                cases.append(("uto_str", hx(v), hx(r)))
+                cases.append(("ito_str", hx(-v), hx(r)))
+                cases.append(("ufrom_str", '"%s"' % text(v, r), hx(r)))
+                cases.append(("ifrom_str", '"-%s"' % text(v, r).upper(), hx(r)))
+            cases.append(("uparse", '"%d"' % v))
+            cases.append(("iparse", '"-%d"' % v))
+            cases.append(("iparse", '"+%d"' % v))
+        for r in (2, 10, 16, 36):
+            good = [format(c, "x") for c in text(big(rng, 2), r).encode()]
+            cases.append(("uparse_bytes", hx(r)) + tuple(good))
+            cases.append(("iparse_bytes", hx(r), "2d") + tuple(good))
+            cases.append(("uparse_bytes", hx(r)) + tuple(good) + ("ff",))
+            cases.append(("uparse_bytes", hx(r), "c3", "28") + tuple(good))
+            cases.append(("iparse_bytes", hx(r)) + tuple(good[:1]) + ("e2", "82") + tuple(good))
+            cases.append(("uparse_bytes", hx(r), "c3", "a9") + tuple(good))
+            cases.append(("uparse_bytes", hx(r)))
     elif pid == "C07":
         for a, b in signed(pairs(5)):
             for op in ("iand", "ior", "ixor", "iand_assign", "ior_assign", "ixor_assign", "iand_vr", "ior_vr", "ixor_vr"):
@@ -992,6 +1172,23 @@ def bank(pid, tier, seed):
         for e in (-(1 << 63), (1 << 63) - 1, -(1 << 127), (1 << 127) - 1, 1 << 63, 1 << 127, -(1 << 63) - 1, -(1 << 127) - 1, -128, 127, -129, 128):
             for op in ("ito_i64", "ito_i128", "ito_i8", "ito_u64"):
                 cases.append((op, hx(e)))
+        # f32: exactly-half / just-below / just-above patterns with the deciding bit far down, carry into the next power of two
+        for hi in list(range(23, 60)) + [63, 64, 65, 100, 126, 127, 128, 129, 200]:
+            rb = hi - 24
+            if rb < 0:
+                cases.append(("uto_f32", hx((1 << hi) + 1)))
+                continue
+            base = (1 << hi) + (rng.getrandbits(23) << (rb + 1))
+            for extra in (0, 1 << rb, (1 << rb) + 1, (1 << rb) - 1 if rb else 0, (1 << rb) + (1 << (rb // 2)), (3 << rb)):
+                cases.append(("uto_f32", hx(base + extra)))
+            cases.append(("uto_f32", hx((1 << (hi + 1)) - 1)))
+        # from_f64 with fractional parts, random mantissas and every exponent class
+        for ex in (-1080, -1074, -1022, -60, -53, -2, -1, 0, 1, 5, 51, 52, 53, 54, 62, 63, 64, 65, 127, 128, 500, 1023):
+            for _ in range(3):
+                fv = math.ldexp(1.0 + rng.random(), ex) if ex > -1022 else math.ldexp(rng.random(), -1022)
+                for sg_ in (1.0, -1.0):
+                    cases.append(("ufrom_f64", fb(sg_ * fv)))
+                    cases.append(("ifrom_f64", fb(sg_ * fv)))
     elif pid == "C09":
         for a, _ in pairs(5):
             for op in ("uto_bytes_le", "uto_bytes_be", "ito_signed_bytes_le", "ito_signed_bytes_be"):
@@ -1044,6 +1241,21 @@ def bank(pid, tier, seed):
                 for op in ("ipow_big", "ipow_big_rv", "ipow_u8", "ipow_u128"):
                     cases.append((op, hx(-a), hx(e)))
                     cases.append((op, hx(a), hx(e)))
+        # exponents with every pattern of trailing zero bits and set bits, a few hundred; BigUint exponents at the u64 / u128 edges (bases 0, 1)
+        for a in (2, 3, -3, 10, B64 - 1, -(B64 + 1)):
+            for e in (14, 18, 20, 24, 28, 36, 40, 48, 63, 65, 96, 129, 192, 200, 256, 300, 384, 511, 512):
+                if abs(a) > 10 and e > 129:
+                    continue
+                cases.append(("ipow", hx(a), hx(e)))
+                if a > 0:
+                    cases.append(("upow", hx(a), hx(e)))
+                    cases.append(("upow_big", hx(a), hx(e)))
+        for a in (0, 1):
+            for e in (B64 - 1, B64, B64 + 1, (1 << 128) - 1, 1 << 128, (1 << 128) + 1, 1 << 200):
+                for op in ("upow_big", "upow_big_rv", "upow_big_rr"):
+                    cases.append((op, hx(a), hx(e)))
+                cases.append(("ipow_big", hx(-a), hx(e)))
+                cases.append(("ipow_big", hx(-a), hx(e + 1)))
         for a, _ in pairs(4):
             for s in (0, 1, 2, 127, 128, 255, (1 << 63), B64 - 1):
                 cases.append(("i8_rem_assign_u", hx(-128), hx(s)))
@@ -1081,6 +1293,29 @@ def bank(pid, tier, seed):
                 for n in (1, 2, 3, 4, 5, 7, 64, 65, 1000):
                     cases.append(("unth_root", hx(a), hx(n)))
                     cases.append(("inth_root", hx(-a), hx(n)))
+        # perfect powers r^n and r^n +- 1, degrees above the bit length, the largest degree, the primitive fast path below 2^64
+        for r in (2, 3, 10, (1 << 32) - 1, 1 << 32, (1 << 32) + 1, B64 - 1, B64, B64 + 1, big(rng, 2), big(rng, 3)):
+            for n in (2, 3, 4, 5, 6, 7, 8, 11, 16, 31, 32, 33, 64):
+                pw_ = r ** n
+                if pw_.bit_length() > 9000:
+                    continue
+                for d in (-1, 0, 1):
+                    cases.append(("unth_root", hx(pw_ + d), hx(n)))
+                    if n % 2 == 1:
+                        cases.append(("inth_root", hx(-(pw_ + d)), hx(n)))
+                if n == 2:
+                    for d in (-1, 0, 1):
+                        cases.append(("usqrt", hx(pw_ + d)))
+                if n == 3:
+                    for d in (-1, 0, 1):
+                        cases.append(("ucbrt", hx(pw_ + d)))
+                        cases.append(("icbrt", hx(-(pw_ + d))))
+        for a in (0, 1, 2, 3, 255, 256, (1 << 63) - 1, 1 << 63, B64 - 1, B64, big(rng, 3)):
+            for n in (1, 2, 3, 63, 64, 65, 127, 128, 129, 200, 0xffffffff, 0xfffffffe):
+                cases.append(("unth_root", hx(a), hx(n)))
+            cases.append(("unth_root", hx(a), hx(0)))
+            cases.append(("inth_root", hx(-a), hx(2)))
+            cases.append(("isqrt", hx(-a)))
     elif pid == "C12":
         for a in [0, 1, 2, 3, B64 - 1, B64, big(rng, 2), big(rng, 3)]:
             for e in (0, 1, 2, 3, 4, 5, 6, 7, 8, 9, 10, 11, 12, 13, 15, 16, 17, 21, 31, 32, 33, 64, 100, 127, 255):
@@ -1111,6 +1346,26 @@ def bank(pid, tier, seed):
             cases.append(("iis_even", hx(a)))
         for b in (0, 1, 5, B64, big(rng, 3)):
             cases.append(("uis_multiple_of", hx(0), hx(b)))
+        # large common powers of two with differing trailing-zero counts spanning several digits, coprime cofactors
+        for (sa, sb) in ((0, 0), (1, 63), (64, 64), (63, 65), (64, 130), (128, 129), (200, 70), (191, 192), (256, 1)):
+            for (x, y) in ((1, 1), (3, 5), (big(rng, 2) | 1, big(rng, 3) | 1), (B64 - 1, B64 + 1), (15, 25)):
+                a, b = x << sa, y << sb
+                for op in ("ugcd", "ulcm", "uis_multiple_of"):
+                    cases.append((op, hx(a), hx(b)))
+                    cases.append((op, hx(b), hx(a)))
+                for s1 in (1, -1):
+                    for s2 in (1, -1):
+                        cases.append(("igcd", hx(s1 * a), hx(s2 * b)))
+                        cases.append(("ilcm", hx(s1 * a), hx(s2 * b)))
+                        cases.append(("iextended_gcd", hx(s1 * a), hx(s2 * b)))
+                        cases.append(("inext_multiple_of", hx(s1 * a), hx(s2 * b)))
+                        cases.append(("iprev_multiple_of", hx(s1 * a), hx(s2 * b)))
+        for a in (0, 5, -5, B64, -B64):
+            for op in ("igcd", "ilcm", "iextended_gcd_lcm"):
+                cases.append((op, hx(a), hx(0)))
+                cases.append((op, hx(0), hx(a)))
+                cases.append((op, hx(a), hx(a)))
+                cases.append((op, hx(a), hx(-a)))
     elif pid == "C17":
         vals = [0, 1, (1 << 32) - 1, 1 << 32, (1 << 32) + 1, (1 << 64) - 1, 1 << 64, (1 << 64) + 1, (1 << 96) - 1, 1 << 96, (1 << 128) + (1 << 32)]
         vals += [a for a, _ in list(pairs(6))[::5]]
